@@ -18,11 +18,12 @@ from . import core
 NUMERIC = ["x", "z", "w"]
 INT = ["k"]
 TICKED = ["a b", "a_b", "a|b"]  # names that all sanitise to the identifier a_b (alias path, S2)
-CATS = ["A", "B", "S"]  # A: object text, B: pandas Categorical with declared order, S: pandas default text dtype
+CATS = ["A", "B", "S", "N"]  # A: object text, B: pandas Categorical (declared order), S: pandas default text dtype, N: Categorical with NUMERIC levels
 LEVELS = {
     "A": ["a", "b", "c", "d"],
     "B": ["lo", "mid", "hi", "top"],
     "S": ["p", "q", "r"],
+    "N": [10, 20, 30],
 }
 
 
@@ -48,7 +49,9 @@ def gen_universe(rng: random.Random, *, n_lo: int = 14, n_hi: int = 48, nulls: b
         if rng.random() < 0.6 or (name == "A" and ncat == 0):
             nl = rng.randint(2, len(LEVELS[name]))
             levels = LEVELS[name][:nl]
-            kind = {"A": "text_object", "B": "category", "S": "text_default" if rng.random() < text_default_p else "text_object"}[name]
+            if name == "N" and rng.random() < 0.6:
+                continue
+            kind = {"A": "text_object", "B": "category", "S": "text_default" if rng.random() < text_default_p else "text_object", "N": "category"}[name]
             spec: dict[str, Any] = {"kind": kind, "levels": levels, "null_rate": rng.choice([0.0, 0.0, 0.08]) if nulls else 0.0}
             if kind == "category":
                 order = levels[:]
@@ -193,15 +196,18 @@ def apply_fault(df: Any, u: dict, ids: list[int], fault: dict) -> Any:
         if rows is None:
             rows = [j for j in range(n) if (ids[j] * 13 + fault.get("salt", 0)) % 3 == 0] or [0]
         col = df[v]
+        news = [new] + ([fault["level2"]] if "level2" in fault else [])
         if isinstance(col.dtype, pd.CategoricalDtype):
-            col = col.cat.add_categories([new])
-            col.iloc[rows] = new
+            col = col.cat.add_categories([x for x in news if x not in list(col.dtype.categories)])
+            for i_, j in enumerate(rows):
+                col.iloc[j] = news[i_ % len(news)]
             df[v] = col
         else:
             vals = list(col.to_numpy(dtype=object))
-            for j in rows:
-                vals[j] = new
-            df[v] = pd.Series(vals, index=df.index, dtype=col.dtype)
+            for i_, j in enumerate(rows):
+                vals[j] = news[i_ % len(news)]
+            dt = col.dtype if all(isinstance(x, str) for x in news) else object
+            df[v] = pd.Series(vals, index=df.index, dtype=dt)
     else:
         raise ValueError(kind)
     return df
@@ -270,7 +276,8 @@ def numeric_atoms(rng: random.Random, v: str, *, rich: bool = True) -> dict:
     elif kind == "nested":
         # a stateful call nested inside a larger factor (its state key is the inner call, not the factor)
         a.update(expr=rng.choice([f"scale(center({n}))", f"I(center({n}) ** 2)", f"exp(scale({n}) / 4)", f"np.abs(standardize({n}))",
-                                  f"poly(center({n}), degree=2)", f"center(log({n} * {n} + 1))", f"I(scale({n}, center=False) + poly({n})[:, 0])"]),
+                                  f"poly(center({n}), degree=2)", f"center(log({n} * {n} + 1))", f"I(scale({n}, center=False) + poly({n})[:, 0])",
+                                  f"I(center({n}) * center({n}))", f"I(scale({n}) - scale({n}) ** 2)"]),
                  stateful=True, mean_based=True)
     elif kind == "attr_alias":
         # a built-in stateful transform reached through an attribute of an object in the caller's context
